@@ -6,6 +6,8 @@
 
 '''Merkle trees, branches, proofs and roots.'''
 
+from threading import Lock
+
 from aiorpcx import Event
 
 from electrumx.lib.hash import double_sha256
@@ -157,6 +159,9 @@ class MerkleCache(object):
         self.length = 0
         self.level = []
         self.depth_higher = 0
+        # truncate() may be called from another thread (when backing up a block)
+        self.truncations = 0
+        self.lock = Lock()
         self.initialized = Event()
 
     def _segment_length(self):
@@ -174,14 +179,18 @@ class MerkleCache(object):
 
     async def _extend_to(self, length):
         '''Extend the length of the cache if necessary.'''
-        if length <= self.length:
-            return
-        # Start from the beginning of any final partial segment.
-        # Retain the value of depth_higher; in practice this is fine
-        start = self._leaf_start(self.length)
-        hashes = await self.source_func(start, length - start)
-        self.level[start >> self.depth_higher:] = self._level(hashes)
-        self.length = length
+        while length > self.length:
+            # Start from the beginning of any final partial segment.
+            # Retain the value of depth_higher; in practice this is fine
+            start = self._leaf_start(self.length)
+            truncations = self.truncations
+            hashes = await self.source_func(start, length - start)
+            level = self._level(hashes)
+            # Hashes read across a truncation may be of an abandoned chain; read again
+            with self.lock:
+                if truncations == self.truncations:
+                    self.level[start >> self.depth_higher:] = level
+                    self.length = length
 
     async def _level_for(self, length):
         '''Return a (level_length, final_hash) pair for a truncation
@@ -209,11 +218,14 @@ class MerkleCache(object):
             raise TypeError('length must be an integer')
         if length <= 0:
             raise ValueError('length must be positive')
-        if length >= self.length:
-            return
-        length = self._leaf_start(length)
-        self.length = length
-        self.level[length >> self.depth_higher:] = []
+        with self.lock:
+            # Count every call: an extension in flight must notice even if nothing is cut now
+            self.truncations += 1
+            if length >= self.length:
+                return
+            length = self._leaf_start(length)
+            self.length = length
+            self.level[length >> self.depth_higher:] = []
 
     async def branch_and_root(self, length, index, tsc_format=False):
         '''Return a merkle branch and root.  Length is the number of
